@@ -187,6 +187,18 @@ type c15Run struct {
 	nMut    int
 	key     string // violation key for view disagreements
 	dumps   []c15Dump
+	mask    hotline.AccessBitmap // the privilege bits that exist (survive the YAML form); undefined bits are C16's subject
+}
+
+// access draws a privilege field restricted to the defined bits.
+func (h *c15Run) access(r *RNG) []byte {
+	b := c15GenAccess(r)
+	for i := range b {
+		if i < 8 {
+			b[i] &= h.mask[i]
+		}
+	}
+	return b
 }
 
 func (h *c15Run) addLogin(l []byte) {
@@ -393,7 +405,7 @@ func (h *c15Run) check(step int) {
 			bad(fmt.Sprintf("login %q: stored password is not a bcrypt hash", l))
 		}
 		for _, pw := range h.pws[l] {
-			if len(pw) > 0 && (strings.Contains(v.hash, string(pw)) || strings.Contains(v.hash, string(obf(pw)))) {
+			if v.hash == string(pw) || v.hash == string(obf(pw)) || (len(pw) >= 6 && (strings.Contains(v.hash, string(pw)) || strings.Contains(v.hash, string(obf(pw))))) {
 				bad(fmt.Sprintf("login %q: stored password field contains the password", l))
 			}
 		}
@@ -518,6 +530,10 @@ func (h *c15Run) finish() {
 			resolve(d.load, ds[1])
 			impl = "dump mem " + canonViews(d.mem, modelPw) + " disk " + canonViews(d.disk, modelPw) + " load " + canonViews(d.load, modelPw)
 			model = "dump mem " + sortCSV(ms[0]) + " disk " + sortCSV(ds[0]) + " load " + sortCSV(ds[1])
+		} else if strings.HasPrefix(model, "user ") && strings.HasPrefix(impl, "user ") {
+			// the password part is judged by the login attempts and the dump; the reply's hash is compared with the stored one directly
+			model = strings.Join(strings.Fields(model)[:4], " ")
+			impl = strings.Join(strings.Fields(impl)[:4], " ")
 		} else if strings.HasPrefix(model, "users ") {
 			f := strings.Fields(model)
 			recs := f[2:]
@@ -556,9 +572,10 @@ func newC15Run(c *Case, key string) (*c15Run, error) {
 	}
 	cc, _ := ts.DirectClient("admin", []byte("admin"), "10.0.0.1:1234")
 	h := &c15Run{c: c, ts: ts, cc: cc, pws: map[string][][]byte{}, hashPw: map[string]string{}, emptyPw: map[string]bool{}, key: key}
-	all := allAccess()
-	ga := guestAccess()
-	h.toks = append(h.toks, "A "+hx([]byte("admin"))+" "+hx([]byte("admin"))+" "+hx([]byte("adm"))+" "+hx(all[:]))
+	all := ts.Acct.Get("admin").Access // all bits, as loaded: only the defined bits survive the YAML form
+	h.mask = all
+	ga := ts.Acct.Get("guest").Access
+	h.toks = append(h.toks, "A "+hx([]byte("admin"))+" "+hx([]byte("admin"))+" "+hx(obf([]byte("adm")))+" "+hx(all[:])) // the fixture stores bcrypt(password as sent)
 	h.toks = append(h.toks, "A "+hx([]byte("guest"))+" "+hx([]byte("Guest User"))+" - "+hx(ga[:]))
 	h.addPw([]byte("guest"), []byte{})
 	return h, nil
